@@ -300,8 +300,14 @@ class Check:
         found = []
         if search_fn is not None:
             found = search_fn() or []
-        if found:
-            for sig, what, rep in found:
+        # failing inputs that are listed known findings exist on the unchanged tree as well: they are reported as such, but they do not
+        # explain why an obligation stopped checking
+        fresh = [f for f in found if self._is_known(f[0]) is None]
+        for sig, what, rep in found:
+            if self._is_known(sig) is not None:
+                self.finding(sig, what, rep)
+        if fresh:
+            for sig, what, rep in fresh:
                 rep = dict(rep)
                 rep["broken"] = {"kind": kind, "name": name, "detail": detail}
                 self.finding(sig, what, rep)
@@ -344,6 +350,12 @@ class Check:
             cov.update(extra)
         if not cov["samples"]:
             cov["samples"] = [o[0] for o in self.obligations[:3]] or ["(none)"]
+        if ndis < nob and not self.violations and self.replay_signature is None:
+            # safety net: an undischarged obligation is always reported, whatever the property's own classification did
+            bad = [o[0] for o in self.obligations if not o[1]]
+            self.violations.append({"signature": f"proof:undischarged:{bad[0]}", "what": f"obligation {bad[0]} (and {len(bad) - 1} more) not discharged; no failing input found",
+                                    "replay": {"broken": {"kind": "proof", "name": bad[0], "detail": getattr(self, "broken_obligation", None), "undischarged": bad}},
+                                    "no_input": True, "count": 1})
         if level == "proof" and (ndis < nob or ndis == 0):
             # a proof-level claim needs every obligation discharged; a run on which some are not reports a violation and says so here
             level = "other"
